@@ -464,6 +464,7 @@ func checkC10(c *Ctx) {
 	c.NotDec = "index-out-of-range and division by zero on configuration-derived values; panics inside dependencies (gorums, protobuf, bls12-381); resource exhaustion by large messages."
 	c.Expect("C10.1", 20)
 
+	c10DecodedElements(c)
 	roots, handlers := receiveRoots(p)
 	if len(roots) < 9 {
 		c.Unresolved("C10.1", "entry points", "expected at least 9 network entry points, found "+itoa(len(roots)))
@@ -944,4 +945,65 @@ func c10CommaOkBlocks(c *Ctx) {
 	if n < 8 {
 		c.Unresolved("C10.5", "block look-ups", "expected at least 8 (block, found) look-ups whose block is used; found "+itoa(n))
 	}
+}
+
+// c10DecodedElements (C10.6): the decoders build collections of signatures element by element from what the peer sent; the
+// methods of those collections (Participants, ToBytes, Verify) call methods on every element without a nil test, so an
+// element must never be nil. Rule: in the wire decoders (functions of internal/proto/hotstuffpb named ...FromProto) a
+// pointer stored as an element of a slice is either the address of a fresh value, or the result of a module function that
+// has no nil return, or is stored only under a nil test of that value.
+func c10DecodedElements(c *Ctx) {
+	p := c.P
+	n := 0
+	var bad []string
+	for _, fn := range p.ModFuncs {
+		if funcPkgPath(fn) != modPath+"/internal/proto/hotstuffpb" || !strings.HasSuffix(fn.Name(), "FromProto") {
+			continue
+		}
+		var fl *Flow
+		eachInstr(fn, func(in ssa.Instruction) {
+			st, ok := in.(*ssa.Store)
+			if !ok {
+				return
+			}
+			if _, ok := st.Addr.(*ssa.IndexAddr); !ok {
+				return
+			}
+			if _, isPtr := st.Val.Type().Underlying().(*types.Pointer); !isPtr {
+				return
+			}
+			call, ok := st.Val.(*ssa.Call)
+			if !ok {
+				return
+			}
+			cal := call.Call.StaticCallee()
+			if cal == nil || cal.Blocks == nil || !inModule(funcPkgPath(cal)) {
+				return
+			}
+			n++
+			var nilRet []string
+			for _, r := range returnsOf(cal) {
+				if len(r.Results) > 0 && isNilConst(r.Results[0]) {
+					nilRet = append(nilRet, p.InstrPos(r))
+				}
+			}
+			if len(nilRet) == 0 {
+				return
+			}
+			if fl == nil {
+				fl = NewFlow(p, fn)
+			}
+			if notNilOf(fl.At(in), is(fl.K.Key(call))) {
+				return
+			}
+			bad = append(bad, p.InstrPos(in)+" in "+shortName(fn)+": element = "+shortName(cal)+"(…), which returns nil at "+join(nilRet))
+		})
+	}
+	if n == 0 {
+		c.Unresolved("C10.6", "wire decoders: elements of decoded signature lists", "no element built by a module function found in the ...FromProto decoders")
+		return
+	}
+	c.Check(len(bad) == 0, "C10.6", "wire decoders: no nil element in a decoded collection", "internal/proto/hotstuffpb",
+		itoa(n)+" element stores in the decoders take the result of a module function that never returns nil",
+		"a decoded collection can hold a nil element: "+join(bad)+" (Participants/ToBytes/Verify call methods on every element: a peer that sends such an entry crashes the replica)")
 }
